@@ -9,7 +9,7 @@ import random
 import z3
 
 import api
-from domains import FPDomain, Num, f2bits, bits2f
+from domains import FPDomain, Num, f2bits, bits2f, CONCRETE_UNARY, concrete_unary
 from common import Obligation, log
 from interp import Unsupported
 
@@ -136,7 +136,8 @@ def _resolve_uf(e, dom, t):
         def walk(x):
             if z3.is_app(x):
                 d = x.decl().name()
-                if d in ("ln_f64", "exp_f64") and z3.is_fp_value(z3.simplify(x.arg(0))):
+                if (d in ("ln_f64", "exp_f64") or (d.endswith("_f64") and d[:-4] in CONCRETE_UNARY)) and \
+                        x.num_args() == 1 and z3.is_fp_value(z3.simplify(x.arg(0))):
                     apps.append(x)
                     return
                 for ch in x.children():
@@ -147,8 +148,11 @@ def _resolve_uf(e, dom, t):
         subs = []
         for a in apps:
             arg = _eval_fp(a.arg(0))
-            op = "ln" if a.decl().name() == "ln_f64" else "exp"
-            val = e.native.run([(op, "-", [arg])])[0][0]
+            nm = a.decl().name()
+            if nm in ("ln_f64", "exp_f64"):
+                val = e.native.run([("ln" if nm == "ln_f64" else "exp", "-", [arg])])[0][0]
+            else:
+                val = concrete_unary(nm[:-4], arg)  # this machine's libm through Python
             subs.append((a, dom.lift(val)))
         t = z3.simplify(z3.substitute(t, *subs))
     return t
